@@ -5,6 +5,8 @@ cd "$(dirname "$0")/harness"
 export CARGO_NET_OFFLINE=true CARGO_TARGET_DIR="$(cd .. && pwd)/target"
 cargo build --offline --workspace -q 2>&1 | grep -v '^warning' | tail -20 || true
 cargo build --offline --workspace -q
+# the same engines without debug assertions / overflow checks (profile `nda`), used by the quick tier next to the dev build
+cargo build --offline --profile nda -q -p e_views -p e_ops -p e_misc -p e_alloc -p e_hex -p e_hex_fh -p e_seq -p e_fault -p e_iter
 # AddressSanitizer substrate (nightly): pre-build the engines that use it in the quick tier so the first check is fast
 RUSTFLAGS="-Zsanitizer=address" CARGO_TARGET_DIR="$(cd .. && pwd)/target_asan" cargo +nightly build --offline -q -p e_iter -p e_seq -p e_own --target x86_64-unknown-linux-gnu
 echo setup ok
